@@ -6,6 +6,8 @@ from utype.schema import LogicalMeta, Schema, DataClass
 from utype.parser.options import Options
 from utype.utils.datastructures import unprovided
 from utype.utils.functional import valid_attr
+from utype.utils.transform import type_transform
+from utype.utils import exceptions as exc
 from . import constant
 import re
 import keyword
@@ -97,6 +99,22 @@ class JsonSchemaParser:
             # a positive min_length with max_length 0 is unsatisfiable: left to Rule to report
             else:
                 constraints['max_length'] = 0
+        listed = [constraints['const']] if 'const' in constraints else constraints.get('enum')
+        others = {k: v for k, v in constraints.items() if k not in ('const', 'enum')}
+        if isinstance(listed, (list, tuple)) and others:
+            # Rule takes const / enum alone (the other constraints are ignored next to them):
+            # list the values that the other keywords allow
+            checker = Rule.annotate(None, constraints=others)
+            strict = Options(no_explicit_cast=True, no_data_loss=True)
+            allowed = []
+            for value in listed:
+                try:
+                    type_transform(value, checker, options=strict)
+                except exc.ParseError:
+                    continue
+                allowed.append(value)
+            if len(allowed) != len(listed):
+                constraints = {'enum': allowed}
         return constraints
 
     def parse_field(self, schema: dict,
